@@ -53,15 +53,12 @@ def hexColon : Bytes → Bytes
   | [b] => [hexUp (b / 16), hexUp (b % 16)]
   | b :: r => hexUp (b / 16) :: hexUp (b % 16) :: 58 :: hexColon r
 
-/-- NativeInteger_encode_xer (`%ld` / `%lu`) and INTEGER__dump: decimal when the value fits `intmax_t`
-    (`uintmax_t` for an unsigned field, whose `asn_INTEGER2umax` result is printed with `%jd` .. the
-    value ≥ 2^63 takes the long form as `asn_INTEGER2imax` fails first), else the octets in hexadecimal -/
+/-- NativeInteger_encode_xer (`%ld` / `%lu`: the whole `unsigned long` range is a decimal numeral) and
+    INTEGER__dump: decimal when the value fits `intmax_t`, else the octets in hexadecimal -/
 def encInt (r : IntRepr) (z : Int) : Option Bytes :=
   match r with
   | .long => if -(2 ^ 63) ≤ z ∧ z < 2 ^ 63 then some (intDec z) else none
-  | .ulong =>
-    if 0 ≤ z ∧ z < 2 ^ 63 then some (intDec z)
-    else if 0 ≤ z ∧ z < 2 ^ 64 then some (hexColon (intOctets z)) else none
+  | .ulong => if 0 ≤ z ∧ z < 2 ^ 64 then some (intDec z) else none
   | .wide => if -(2 ^ 63) ≤ z ∧ z < 2 ^ 63 then some (intDec z) else some (hexColon (intOctets z))
 
 /-- `INTEGER_map_value2enum` -/
@@ -175,16 +172,6 @@ def dfltVal (a : Attr) : Option Val :=
   | some (.bool b) => some (.bool b)
   | _ => none
 
-/-- is the component stored inline (not behind a pointer) although it is DEFAULT: `try_inline_default`
-    clears EM_INDIRECT for a `long`-sized type whose default value is 0 / FALSE -/
-def inlineDflt (t : XTy) (a : Attr) : Option Val :=
-  match a.dflt, t with
-  | some (.bool false), .boolean => some (.bool false)
-  | some (.int 0), .integer .long => some (.int 0)
-  | some (.int 0), .integer .ulong => some (.int 0)
-  | some (.int 0), .enumerated _ _ => some (.int 0)
-  | _, _ => none
-
 def omitable (a : Attr) : Bool := a.optional || a.ext
 
 /-- elements of SEQUENCE OF / SET OF: `f` encodes one element -/
@@ -258,15 +245,17 @@ def encMembers (c : Bool) : List Bytes → List XTy → List Attr → Nat → Li
       | none => none
     | _, _ => none
   | _, _, _, _, _ => none
-/-- SET_encode_xer, member number `k`: an absent member is skipped when OPTIONAL / DEFAULT / addition,
-    unless it is stored inline (DEFAULT 0 of a native type: BASIC-XER writes the 0 it finds there);
-    CANONICAL-XER skips every member that holds its DEFAULT value, the inline one included -/
+/-- SET_encode_xer, member number `k`, treats the member like SEQUENCE_encode_xer does (finding F76 repaired: an
+    absent DEFAULT member used to be skipped in BASIC-XER unless it was stored inline - DEFAULT 0 of a native type -,
+    so that the text depended on the representation): BASIC-XER writes an absent DEFAULT member with its default
+    value (`default_value_set && !xcan`), an absent OPTIONAL member / extension addition is skipped;
+    CANONICAL-XER skips every member that is absent or holds its DEFAULT value -/
 def encNth (c : Bool) : List Bytes → List XTy → List Attr → Nat → List Val → Nat → Option Bytes
   | n :: _, m :: _, a :: _, il, v :: _, 0 =>
     let v? : Option (Option Val) :=
       match v with
       | .absent =>
-        match (if c then none else inlineDflt m a) with
+        match (if c then none else dfltVal a) with
         | some d => some (some d)
         | none => if omitable a then some none else none
       | v => if c && isDefault a v then some none else some (some v)
@@ -577,8 +566,10 @@ def intOfOctets (r : IntRepr) (os : Bytes) : Option Int :=
     enumeration map of ENUMERATED (empty for INTEGER) -/
 def intBody (r : IntRepr) (names : List Bytes) (vals : List Int) (chunk : Bytes) : Pbd :=
   let fin (z : Int) : Pbd :=
-    -- "We model INTEGER on long for XER": the decimal value must fit `long`
-    if -(2 ^ 63) ≤ z ∧ z < 2 ^ 63 then
+    -- "We model INTEGER on long for XER": the decimal value must fit `long` (asn_strtoimax_lim) - or, for a
+    -- descriptor with `field_unsigned`, `unsigned long` (asn_strtoumax_lim, tried when the signed parse hits the
+    -- range limit: finding F125 repaired; the numeral of 2^63 and more has no '-', which asn_strtoumax_lim rejects)
+    if (-(2 ^ 63) ≤ z ∧ z < 2 ^ 63) ∨ (r = .ulong ∧ 2 ^ 63 ≤ z ∧ z < 2 ^ 64) then
       match intOfOctets r (intOctets z) with
       | some v => .consumed (.int v)
       | none => .broken
